@@ -432,6 +432,7 @@ def run(ctx, prog):
     ctx.doc("R-TAG", "union-tag discipline (see rules/tags.py)")
     from rules import accum
     accum.run(ctx, prog)
+    accum.run_lockstep(ctx, prog)
 
 
 def region_has_float(pt, ks, rout, tin):
